@@ -43,7 +43,8 @@ TRUSTED_BASE = [
     "Lean 4.33 kernel (lake build of RitiModel.Props.<id>); axioms per theorem audited with #print axioms: subset of {propext, Classical.choice, Quot.sound}; no native_decide, no sorry/admit, no axioms of our own",
     "tools/translate.py: reads the regular shape of the Rust items it names (constants, match arms, string literals) into Lean tables; fails loudly otherwise",
     "correspondence check: hand-written Lean model agrees with the real library on the traces run (harness/ + lean/Driver); reach bounded by the generators, complete where the space is finite",
-    "modelled, not verified: regex matching/compile limits, serde_json, file system, HashMap as finite map, slice::sort as the stable sort, sort_unstable as some sorting permutation, okkhor's regex generator, poriborton, emojicon tables",
+    "modelled and re-validated on every run (each trace line carrying their result is recomputed by the Lean model): okkhor's transliterator and regex generator, matching of the regex fragment used (not the compile-size limit of the regex crate), serde_json for a map of strings, poriborton's Bijoy encoder; complete-domain comparison (stream tie) of the key maps and Rank::cmp",
+    "parameters of the model (not verified): the OS and file system (files appear as absent / unreadable / parsed + mtime), HashMap as a finite map, slice::sort as the stable sort, sort_unstable as some sorting permutation, the emojicon tables and the data files",
 ]
 
 def sh(cmd, cwd=None, timeout=None, env=None):
@@ -78,6 +79,8 @@ EXTRA = {
     "C16": [(os.path.join("Props", "Bijoy.lean"), "Bijoy", "RitiModel.Props.Bijoy"), REAL],
     # the parameters instantiated with the real transliterator / dictionary look-up / encoder (provisos discharged to the data files)
     "C03": [REAL], "C17": [REAL], "C18": [REAL], "C19": [REAL],
+    # the fixed-method dictionary pattern ^clean[class]{0,n}$: the model's direct characterisation is its language
+    "C15": [(os.path.join("Props", "FixedRegex.lean"), "FixedRegex", "RitiModel.Props.FixedRegex")],
     # the JSON fragment of the per-user files (reader, writer, UTF-8 layer, crash points of the save)
     "C09": [(os.path.join("Props", "Json.lean"), "Json", "RitiModel.Props.Json")],
     "C10": [(os.path.join("Props", "Json.lean"), "Json", "RitiModel.Props.Json")],
